@@ -12,7 +12,7 @@ package cors
 //@ func internalConfig.handleNonCORS
 //@   transparent
 //@ func internalConfig.handleCORSPreflight
-//@   transparent
+//@   transparent nomerge
 //@ func internalConfig.processOriginForPreflight
 //@   transparent
 //@ func internalConfig.processACRPN
